@@ -206,11 +206,6 @@ def format_merge_render_lines(
     sep2 = "="*marker_size
     sep3 = ">"*marker_size
 
-    if local and local[-1].endswith('\n'):
-        local[-1] = local[-1] + '\n'
-    if remote and remote[-1].endswith('\n'):
-        remote[-1] = remote[-1] + '\n'
-
     # Extract equal lines at beginning
     prelines = []
     i = 0
@@ -225,12 +220,10 @@ def format_merge_render_lines(
     postlines = []
     i = len(local) - 1
     j = len(remote) - 1
-    while (i >= 0 and i < len(local) and
-           j >= 0 and j < len(remote) and
-           local[i] == remote[j]):
+    while i >= 0 and j >= 0 and local[i] == remote[j]:
         postlines.append(local[i])
-        i += 1
-        j += 1
+        i -= 1
+        j -= 1
     postlines = reversed(postlines)
     local = local[:i+1]
     remote = remote[:j+1]
